@@ -313,6 +313,21 @@ func (eng *Engine) verifyFunc(p *packages.Package, key string) (*FuncVerifier, e
 	}
 	fv.scanBoxed(fd.Body)
 	fv.scanAliases(fd.Body)
+	// statement-anchored ghost snapshots
+	fv.stmtSites = map[ast.Stmt]string{}
+	for _, m := range []map[string][]Clause{fv.contract.BeforeLets, fv.contract.AfterLets} {
+		for key := range m {
+			kind := strings.SplitN(strings.SplitN(key, "/", 2)[0], "#", 2)[0]
+			switch kind {
+			case "if", "for", "range", "switch", "select":
+				if nd, ok := findNode(fd.Body, key).(ast.Stmt); ok && nd != nil {
+					fv.stmtSites[nd] = key
+				} else {
+					return nil, fmt.Errorf("%s: let directive addresses a statement that does not exist: %s", key, key)
+				}
+			}
+		}
+	}
 	sig := fo.Type().(*types.Signature)
 	st := &State{vars: map[types.Object]string{}, ghost: map[string]Val{}, heaps: map[string]string{}, pc: "true", locks: map[string]string{}, anc: map[int]bool{0: true}}
 	fv.entry = &State{vars: map[types.Object]string{}, ghost: map[string]Val{}, heaps: map[string]string{}, pc: "true", locks: map[string]string{}}
@@ -543,7 +558,11 @@ func (fv *FuncVerifier) ownEnvAt(st *State, errs *[]string, pos token.Pos) *spec
 			return v
 		}
 		// loop-scoped variables (for i := ...): search function scopes for a unique variable of that name
-		return fv.findLocalByName(name, pos)
+		if v := fv.findLocalByName(name, pos); v != nil {
+			return v
+		}
+		// ghost snapshot bound by a let directive
+		return fv.letVars[name]
 	}
 	env := &specEnv{fv: fv, st: st, old: fv.entry, vars: map[string]Val{}, err: errs, pkgScope: fv.pkg.Types.Scope()}
 	env.resolve = func(name string) (Val, bool) {
